@@ -156,7 +156,7 @@ class Summaries:
 
     def _is_lock_expr(self, fn: FunctionInfo, ce: ast.AST) -> bool:
         ts = self.typer.expr_types(fn, ce)
-        names = {"ILock", "Lock", "FairLock", "FastFIFOLock"}
+        names = {"ILock", "Lock", "FairLock", "FastFIFOLock", "ICondition", "Condition"}
         return bool(ts) and all((t.kind == "repo" and t.ref.name in names) or (t.kind == "ext" and str(t.ref).split(".")[-1] in names) for t in ts)
 
     def _fix(self, cancel: bool) -> dict[FunctionInfo, bool]:
